@@ -18,6 +18,7 @@ func init() {
 		Explanation: "Reverse reading and timestamp seek of query-log files, structural part. Decided: (D1) termination ('without ever looping'): every loop in the file reader and the multi-file reader has a syntactic ranking argument — a range loop, a counted loop stepping towards a loop-invariant bound, the binary search's budget counter that is incremented and tested against a constant on every cycle, or the current-file index decremented on every non-returning iteration; " +
 			"(D2) seek result classes: the probe validator reports too-early, not-found and too-late on its three index conditions and success otherwise; the binary search uses a probe line only after validation; the multi-file seek maps too-early to the next (older) file, too-late to the start of the newest file — and only too-late —, not-found to an error, and success to that file becoming the current one. " +
 			"(D3) window constants: the chunk buffer is re-read whenever fewer bytes than the 16 KiB entry limit lie between its start and the read position (unless it starts at the file start), the chunk is at least that large and the same constant is used for the seek offset, the bound test and the allocation; the probe window reaches one entry limit back and is allocated one entry limit beyond — necessary for a line shorter than the limit to lie completely inside the buffer. " +
+			"(D4) when the multi-file reader shifts to the older file it positions that file at its start before reading from it. " +
 			"Not decided: 'every line exactly once, in reverse order' and the exact position after a seek — arithmetic over runtime offsets.",
 		RuleText:    "Natural loops from SSA dominators; four variant idioms; CFG edge guards for the result classes.",
 		Assumptions: []string{"os.File Read/Seek terminate"},
@@ -269,6 +270,7 @@ func runC20(c *Ctx) {
 	}, gOK)
 	r.Check(nOK > 0 && nsC > 0 && len(offC) == 0, "C20-D2", "found-file-becomes-current", p.FnPos(rs), "the file in which the timestamp was found becomes the current file", "the current file is changed although the timestamp was not found in it", traceOf(p, offC)...)
 	c20Windows(c)
+	c20Shift(c)
 }
 
 // c20Windows: D3.
@@ -422,4 +424,51 @@ func errClass(p *core.Prog, o core.Origin) string {
 		}
 	}
 	return ""
+}
+
+// c20Shift: D4.  When the multi-file reader runs off the oldest line of a file
+// it continues with the next older file from that file's start.  A previous
+// seek may have left the older file positioned somewhere in its middle, so the
+// shift itself must position it: between the decrement of the current-file
+// index and the next read of a line lies a SeekStart of the file.
+func c20Shift(c *Ctx) {
+	p, r := c.P, c.R
+	fn := p.Fn("(*querylog.qLogReader).ReadNext")
+	if fn == nil {
+		r.Undecided("C20-D4", "qLogReader.ReadNext", "-", "anchor not found")
+		return
+	}
+	var decs []ssa.Instruction
+	for _, b := range fn.Blocks {
+		for _, in := range b.Instrs {
+			st, ok := in.(*ssa.Store)
+			if !ok {
+				continue
+			}
+			if fr, ok := core.FieldOfAddr(st.Addr); ok && fr.Type == "querylog.qLogReader" && fr.Field == "currentFile" {
+				if bo, ok := st.Val.(*ssa.BinOp); ok && bo.Op == token.SUB {
+					decs = append(decs, in)
+				}
+			}
+		}
+	}
+	if len(decs) == 0 {
+		r.Undecided("C20-D4", "shift-to-older-file", p.FnPos(fn), "the shift to the older file (decrement of currentFile) was not found")
+		return
+	}
+	isRead := core.IsCallTo(false, "(*querylog.qLogFile).ReadNext")
+	isSeek := core.IsCallTo(false, "(*querylog.qLogFile).SeekStart")
+	bad := false
+	var det []string
+	for _, d := range decs {
+		pt := core.PointOf(d)
+		pt.Idx++
+		if found, tr, _ := core.Reach(core.Query{From: []core.Point{pt}, Target: isRead, Avoid: isSeek}); found {
+			bad = true
+			det = append(det, p.TraceString(tr))
+		}
+	}
+	r.Check(!bad, "C20-D4", "older-file-read-from-its-start", p.FnPos(fn),
+		"after shifting to the older file the reader positions it at its start before reading from it",
+		"after shifting to the older file the reader reads on from wherever an earlier seek left that file: lines between that position and the end of the older file are skipped", det...)
 }
